@@ -10,6 +10,15 @@
 (* (AdjustOffs uses `Offs != 0` as a presence test, so "sip:a@b:" has       *)
 (* Port = {8,0} and that offset matters).  URI_Obs normalises with PFObs.   *)
 (*                                                                          *)
+(* Dead code (never reached by any input; Go statement coverage agrees):    *)
+(*   - end-of-input `case uUser: if foundUser { return ErrURIBad }`          *)
+(*     (sipuri.go:662): foundUser is only set when leaving uUser, so "bad"   *)
+(*     is never returned;                                                    *)
+(*   - end-of-input `default: return ErrURIBug` (sipuri.go:697) and the      *)
+(*     model's OTHER arm of Step: uInit/uSIP/uSIPS/uTEL are never assigned   *)
+(*     inside the loop;                                                      *)
+(*   - the PANIC propagation: no PField.Set in ParseURI can see end < start. *)
+(*                                                                          *)
 (* Local variables of ParseURI that survive loop iterations are the fields  *)
 (* of the loop record L:                                                    *)
 (*   state, s (element start), fu (foundUser), po (passOffs),               *)
@@ -111,11 +120,12 @@ St_Host6E(c, i, L) ==
 \* case uPort:
 St_Port(c, i, L) ==
   CASE IsDigit(c) -> Go([L EXCEPT !.pn = PortAcc(L.pn, c)])
-    [] c = SEMI \/ c = QM ->                                          \* two identical Go arms
-         LET u1 == [L.u EXCEPT !.port = PFSet(L.s, i)] IN
-           IF L.pn > 65535 THEN Stop(u1, UE_PORT, i)
-           ELSE Go([L EXCEPT !.u = [u1 EXCEPT !.portno = L.pn], !.s = i + 1,
-                             !.state = IF c = SEMI THEN "uParam0" ELSE "uHeaders"])
+    [] c = SEMI   -> LET u1 == [L.u EXCEPT !.port = PFSet(L.s, i)] IN
+                       IF L.pn > 65535 THEN Stop(u1, UE_PORT, i)
+                       ELSE Go([L EXCEPT !.u = [u1 EXCEPT !.portno = L.pn], !.state = "uParam0", !.s = i + 1])
+    [] c = QM     -> LET u1 == [L.u EXCEPT !.port = PFSet(L.s, i)] IN
+                       IF L.pn > 65535 THEN Stop(u1, UE_PORT, i)
+                       ELSE Go([L EXCEPT !.u = [u1 EXCEPT !.portno = L.pn], !.state = "uHeaders", !.s = i + 1])
     [] OTHER      -> Stop(L.u, UE_PORT, i)
 
 \* the `if foundUser == false {...}` body shared (textually duplicated in Go) by '@' in uParam0/1 and uHeaders:
